@@ -70,7 +70,10 @@ MovesAgg(h, kn) ==
          \o (IF Len(bv) >= 1 /\ \E c \in VisSet(t) : t.nm[c] = "g"
              THEN <<MGroupBy(i, <<CN("g"), Col(bv[1])>>, FALSE)>> ELSE <<>>)
          \o (IF NameFree(t, "k") /\ Len(iv) >= 1
-             THEN <<MMutate(i, <<KV("k", Fn2("mod", Col(iv[1]), LitI(2)))>>)>> ELSE <<>>)
+             THEN <<MMutate(i, <<KV("k", Fn2("mod", Col(iv[1]), LitI(2)))>>),
+                    \* a key whose VALUES are literals but whose condition is a column: not a constant
+                    MMutate(i, <<KV("k", Case1D(Fn2("gt", Col(iv[1]), LitI(1)), LitI(1), LitI(0)))>>),
+                    MMutate(i, <<KV("k", Case1(Fn1("is_null", Col(iv[1])), LitI(7)))>>)>> ELSE <<>>)
          \o MapS(SelectSeq(iv, LAMBDA c : t.nm[c] = "k"), LAMBDA c : MGroupBy(i, <<Col(c)>>, FALSE))
          \o MapS(Take(iv, 1), LAMBDA c : MFilter(i, <<Fn2("gt", Col(c), LitI(1))>>))
          \o MapS(Take(iv, 1), LAMBDA c : MFilter(i, <<Fn2("gt", Col(c), LitI(100))>>))
@@ -143,6 +146,7 @@ MovesWinS(h, kn) ==
         \o <<MFilter(i, <<Fn2("gt", Col(iv[1]), LitI(0))>>)>>
         \o MapS(SelectSeq(iv, LAMBDA c : t.nm[c] = "g"), LAMBDA c : MGroupBy(i, <<Col(c)>>, FALSE))
         \o <<MAlias(i, t.name, TRUE)>>
+        \o (IF "w" \in VisNames(t) THEN <<MAlias(i, "s", FALSE)>> ELSE <<>>)      \* a plain alias(): new column identities, the same kinds of column
         \o (IF "w" \in VisNames(t) /\ t.ty[ByName(t)["w"]] = "int" THEN <<MFilter(i, <<Fn2("le", CN("w"), LitI(2))>>)>> ELSE <<>>)
         \o (IF t.part # <<>> THEN <<MSummarize(i, <<KV("s", Agg("sum", Col(x)))>>)>> ELSE <<>>)
 
@@ -157,7 +161,9 @@ MovesGS(h, kn) ==
         t  == h[i]
         has(n) == n \in VisNames(t)
         c(n) == Col(ByName(t)[n])
-    IN  IF ~(has("a") /\ has("b")) THEN <<>> ELSE
+    IN  \* after the summarize: keep the aggregate only (the grouping column must still cross the subquery boundary)
+        IF Summarized(t) /\ has("s") /\ Len(t.vis) >= 2 THEN <<MSelect(i, <<c("s")>>)>> ELSE
+        IF ~(has("a") /\ has("b")) THEN <<>> ELSE
         (IF has("g") /\ t.part = <<>> /\ ~Summarized(t) THEN <<MGroupBy(i, <<c("g")>>, FALSE)>> ELSE <<>>)
         \o (IF ~has("w") THEN <<MMutate(i, <<KV("w", Win("row_number", <<>>, <<Ord(c("b"), FALSE, "first"), Ord(c("a"), TRUE, "last")>>))>>),
                                  MMutate(i, <<KV("w", Agg("sum", c("b")))>>),
@@ -168,6 +174,7 @@ MovesGS(h, kn) ==
         \o <<MFilter(i, <<Fn2("gt", c("b"), LitI(0))>>)>>
         \o (IF t.part = <<>> THEN <<MSlice(i, 3, 0), MSlice(i, 0, 0)>> ELSE <<>>)          \* slice_head(0) is a limit, too
         \o (IF ~Summarized(t) THEN <<MSummarize(i, <<KV("s", Agg("sum", c("b"))), KV("n", Len0)>>)>> ELSE <<>>)
+        \o (IF ~Summarized(t) /\ has("w") /\ t.ty[ByName(t)["w"]] = "int" THEN <<MSummarize(i, <<KV("s", Agg("max", CN("w")))>>)>> ELSE <<>>)   \* an aggregate of the window column
         \o <<MArrange(i, <<Ord(c("b"), FALSE, "first"), Ord(c("a"), TRUE, "last")>>)>>
         \o (IF t.part # <<>> THEN <<MUngroup(i)>> ELSE <<>>)
 
@@ -218,6 +225,11 @@ MovesHidSub(h, kn) ==
         \o <<MAlias(i, t.name, TRUE)>>
         \o (IF h[1].vis[1] \in Scope(t) THEN <<MFilter(i, <<Fn2("ge", olda, LitI(2))>>), MMutate(i, <<KV("probe", olda)>>)>> ELSE <<>>)
         \o (IF has("b") THEN <<MFilter(i, <<Fn2("gt", c("b"), LitI(0))>>)>> ELSE <<>>)
+        \* a real column that carries the name a de-duplication suffix would produce
+        \o (IF i = 1 /\ has("b") /\ ~has("a_1") THEN <<MMutate(i, <<KV("a_1", c("b"))>>)>> ELSE <<>>)
+        \* overwrite the visible a once more, reading the hidden a first and the visible a second
+        \o (IF has("a") /\ h[1].vis[1] \in Scope(t) /\ h[1].vis[1] \notin VisSet(t)
+            THEN <<MMutate(i, <<KV("a", Fn2("add", Fn2("mul", olda, LitI(2)), c("a")))>>)>> ELSE <<>>)
 
 ---------------------------------------------------------------------------
 (* tall tables: a short alphabet that is cheap to evaluate on > 100 rows *)
@@ -305,7 +317,10 @@ TyExprs(t) ==
               Fn2("fill_null", Col(c), LitI(0)), Fn1("abs", Col(c))>>))
         \o Flat(MapS(bv, LAMBDA c :
             <<Cast(Col(c), "int"), Cast(Col(c), "float"), Fn2("add", Col(c), Col(c)), Agg("sum", Col(c)), Agg("any", Col(c)),
-              Fn1("not", Col(c)), Fn2("and", Col(c), LitB(TRUE)), Fn2("fill_null", Col(c), LitB(FALSE))>>))
+              Fn1("not", Col(c)), Fn2("and", Col(c), LitB(TRUE)), Fn2("fill_null", Col(c), LitB(FALSE)),
+              \* compound boolean expressions stay boolean: the negation of a conjunction / disjunction, nested
+              Fn1("not", Fn2("and", Col(c), Fn1("is_not_null", Col(c)))), Fn1("not", Fn2("or", Col(c), Fn1("is_null", Col(c)))),
+              Fn2("xor", Col(c), Fn1("not", Fn2("or", Col(c), LitB(FALSE)))), Agg("all", Fn1("not", Fn2("and", Col(c), Col(c))))>>))
         \o Flat(MapS(a, LAMBDA c : MapS(fv, LAMBDA f : Fn2("add", Col(c), Col(f)))))
         \o Flat(MapS(a, LAMBDA c : Flat(MapS(bv, LAMBDA p :       \* window functions over a boolean column, both directions, with and without fill
               <<Shift(Col(p), -1, <<LitB(FALSE)>>, <<Ord(Col(c), FALSE, "first"), Ord(Col(p), FALSE, "last")>>),
